@@ -71,6 +71,9 @@ pub fn run_canon(cfg: &Cfg) -> Stats {
         if element_is_obj {
             uses.push(format!("(xor (call \"{obs_peer}\" (\"svc\" \"obsfield\") [#can.$.[{idx}].tag #can.$.[{idx}].a.b.[1]]) (null))"));
         }
+        // the whole canonical stream copied into a scalar and used (possibly on another peer): the value was
+        // produced by the canon instruction at the canon peer
+        uses.push(format!("(seq (ap #can whole) (call \"{obs_peer}\" (\"svc\" \"obswhole\") [whole]))"));
         let it_use = if element_is_obj { "[it it.$.tag]" } else { "[it]" };
         uses.push(format!("(fold #can it (seq (call \"{obs_peer}\" (\"svc\" \"obsit\") {it_use}) (next it)))"));
         rng.shuffle(&mut uses);
@@ -89,6 +92,15 @@ pub fn run_canon(cfg: &Cfg) -> Stats {
             let Ok(reqs) = &s.out.requests else { continue };
             for q in reqs.values() {
                 if !q.function.starts_with("obs") {
+                    continue;
+                }
+                if q.function == "obswhole" {
+                    st.inc("canon_arguments_checked", 1);
+                    judged += 1;
+                    let o = Origin { peer: canon_peer.clone(), service: String::new(), function: String::new(), lens: vec![] };
+                    if let Some(tets) = q.tetraplets.first() {
+                        check_one(st, case, &world, s.idx, &q.function, 0, tets, &o, &[], &detail(&h));
+                    }
                     continue;
                 }
                 for (ai, (arg, tets)) in q.args.iter().zip(&q.tetraplets).enumerate() {
